@@ -60,17 +60,8 @@ def level_problems(tree, out):
 def run(ctx):
     quick = ctx.tier == "quick"
     ctx.build_go()
-    ctx.extract(["lexer", "tables", "specmaps"])
-    try:
-        ctx.prove("Emerge.Props.C12")
-        if not quick:
-            ctx.leanchecker("Emerge.Props.C12")
-    except Broken as b:
-        ctx.add_broken(b.what, b.detail)
-        ok, out = ctx.lake(["model"])
-        if not ok:
-            ctx.add_broken("model driver no longer builds", out[-2000:])
-            return ctx.finish(LEVEL, {"evaluations": 0, "distinct_nontrivial": 0, "samples": []}, [])
+    if not ctx.prepare(["lexer", "tables", "specmaps"], "Emerge.Props.C12", quick):
+        return ctx.finish(LEVEL, {"evaluations": 0, "distinct_nontrivial": 0, "samples": []}, [])
     rng = ctx.rng
     cases = []
     for _ in range(800 if quick else 12000):
@@ -98,7 +89,7 @@ def run(ctx):
     nacc, nlev = 0, 0
     distinct = set()
     pending = []
-    for (tree, text), i in zip(cases, impl):
+    for (tree, text), i, mline in zip(cases, impl, model):
         if not i.startswith("OK"):
             continue
         nacc += 1
@@ -106,14 +97,14 @@ def run(ctx):
         nlev += n
         distinct.add(text)
         if problems:
-            pending.append((tree, text, i, problems))
+            pending.append((tree, text, i, problems, same_as_model(text, i, mline)))
     # a disagreement is attributed to the recorded findings (F14: literal spelled like a token; F2b: user rule spelled like a
     # synthesised name) only if the model with exactly those findings repaired satisfies the same oracle on the same input
     explained = 0
     if pending:
         fixed = ctx.run_model("specfixed", [hx(p[1]) for p in pending])
-        for (tree, text, i, problems), fx in zip(pending, fixed):
-            if known and fx.startswith("OK") and not level_problems(tree, parse_ok(fx))[0]:
+        for (tree, text, i, problems, as_model), fx in zip(pending, fixed):
+            if known and as_model and fx.startswith("OK") and not level_problems(tree, parse_ok(fx))[0]:
                 explained += 1
                 continue
             ctx.add_violation("recorded precedence levels differ from the directives written",
